@@ -86,6 +86,11 @@ inductive Expr where
   | call (f : String) (args : List Expr)
   deriving Repr, Inhabited
 
+/-- tokens of the statement level: `|` `.` `@` `var` `=` `[` `]` `lambda:` `dbrp` -/
+inductive Sym where
+  | pipe | dot | at | var | asgn | lsb | rsb | lambda | dbrp
+  deriving DecidableEq, Repr, Inhabited
+
 /-- decoded tokens (what the parser works on after `newNumber`/`newString`/… turned the text into values) -/
 inductive Tok where
   | lit (a : Atom)
@@ -93,6 +98,7 @@ inductive Tok where
   | lp | rp | comma
   | not
   | op (o : BinOp)
+  | sym (s : Sym)
   deriving DecidableEq, Repr, Inhabited
 
 /-- raw tokens as the lexer emits them (type + text) -/
@@ -100,7 +106,7 @@ inductive RTok where
   | number (t : String) | duration (t : String) | string (t : String) | regex (t : String)
   | reference (t : String) | ident (t : String) | tTrue | tFalse
   | lp | rp | comma | star | not | op (o : BinOp)
-  | other (t : String)   -- a token outside the expression sub-language (`[ ] | @ . = var dbrp lambda:` comment)
+  | sym (s : Sym)        -- statement-level tokens (comments are dropped by the lexer: the parser skips them)
   deriving DecidableEq, Repr, Inhabited
 
 /-! ## Literal codecs on character lists -/
@@ -303,6 +309,33 @@ def dropSpace : List Char → List Char
   | c :: rest => if isSpace c then dropSpace rest else c :: rest
   | [] => []
 
+/-- `for ; n != '\\n' && isSpace(n); n = l.next() {}` of lexComment -/
+def dropHSpace : List Char → List Char
+  | c :: rest => if isSpace c && c != '\n' then dropHSpace rest else c :: rest
+  | [] => []
+
+theorem dropHSpace_length_le : ∀ cs : List Char, (dropHSpace cs).length ≤ cs.length
+  | [] => by simp [dropHSpace]
+  | c :: rest => by
+    have := dropHSpace_length_le rest
+    unfold dropHSpace; split <;> simp <;> omega
+
+/-- lexComment after the leading `//`: runs to the end of the line; a following line whose first non-blank
+character is `/` continues the comment. Returns what is left. -/
+def skipComment : List Char → List Char
+  | [] => []
+  | c :: rest =>
+    if c = '\n' then
+      match _h : dropHSpace rest with
+      | '/' :: r' => skipComment r'
+      | r => r
+    else skipComment rest
+termination_by cs => cs.length
+decreasing_by
+  all_goals simp_wf
+  · have := dropHSpace_length_le rest
+    rw [_h] at this; simp at this; omega
+
 def keywordTok (s : String) : Option String := (keywords.find? (fun p => p.1 == s)).map (·.2)
 
 /-- the token loop. `bop = true` is the state `tryLexBinaryOperator`, `false` is `lexToken`. -/
@@ -315,7 +348,7 @@ def lexLoop : Nat → Bool → List Char → List RTok → Res (List RTok)
       | '-' :: r => lexLoop fuel false r (.op .TokenMinus :: acc)
       | '*' :: r => lexLoop fuel false r (.op .TokenMult :: acc)
       | '%' :: r => lexLoop fuel false r (.op .TokenMod :: acc)
-      | '/' :: '/' :: _ => .na "comment"
+      | '/' :: '/' :: r => lexLoop fuel false (skipComment r) acc
       | '/' :: r => lexLoop fuel false r (.op .TokenDiv :: acc)
       | '!' :: '=' :: r => lexLoop fuel false r (.op .TokenNotEqual :: acc)
       | '!' :: '~' :: r =>
@@ -338,7 +371,14 @@ def lexLoop : Nat → Bool → List Char → List RTok → Res (List RTok)
           | some (b, r'') => lexLoop fuel true r'' (.regex (String.ofList ('/' :: b)) :: .op .TokenRegexEqual :: acc)
           | none => .err
         | r' => lexLoop fuel false r' (.op .TokenRegexEqual :: acc)
-      | '=' :: _ => .na "assignment"
+      | '=' :: r =>
+        -- TokenAsgn; ignoreSpace; a regex may follow directly
+        match dropSpace r with
+        | '/' :: r' =>
+          match scanRegex r' with
+          | some (b, r'') => lexLoop fuel true r'' (.regex (String.ofList ('/' :: b)) :: .sym .asgn :: acc)
+          | none => .err
+        | r' => lexLoop fuel false r' (.sym .asgn :: acc)
       | r => lexLoop fuel false r acc
     else
       match cs with
@@ -350,7 +390,7 @@ def lexLoop : Nat → Bool → List Char → List RTok → Res (List RTok)
           match scanNumber false true [] cs with
           | .number t r' => lexLoop fuel true r' (.number (String.ofList t) :: acc)
           | .duration t r' => lexLoop fuel true r' (.duration (String.ofList t) :: acc)
-          | .dot _ => .na "dot"
+          | .dot r' => lexLoop fuel false r' (.sym .dot :: acc)
           | .bad => .err
         else if isLetter c then
           let w := cs.takeWhile isIdentCh
@@ -361,9 +401,11 @@ def lexLoop : Nat → Bool → List Char → List RTok → Res (List RTok)
           | some "TokenFalse" => lexLoop fuel true r' (.tFalse :: acc)
           | some "TokenAnd" => lexLoop fuel true r' (.op .TokenAnd :: acc)
           | some "TokenOr" => lexLoop fuel true r' (.op .TokenOr :: acc)
+          | some "TokenVar" => lexLoop fuel true r' (.sym .var :: acc)
+          | some "TokenDBRP" => lexLoop fuel true r' (.sym .dbrp :: acc)
           | some "TokenLambda" =>
             match r' with
-            | ':' :: _ => .na "lambda-keyword"
+            | ':' :: r'' => lexLoop fuel true r'' (.sym .lambda :: acc)
             | _ => if (r'.head?.map isAscii).getD true then lexLoop fuel true r' (.ident s :: acc) else .na "non-ascii"
           | some _ => .na "statement-keyword"
           | none => if (r'.head?.map isAscii).getD true then lexLoop fuel true r' (.ident s :: acc) else .na "non-ascii"
@@ -382,14 +424,17 @@ def lexLoop : Nat → Bool → List Char → List RTok → Res (List RTok)
         else if c = '*' then lexLoop fuel false r (.star :: acc)
         else if c = '/' then
           match r with
-          | '/' :: _ => .na "comment"
+          | '/' :: r2 => lexLoop fuel false (skipComment r2) acc
           | d :: _ =>
             if !isAscii d then .na "lexer-multibyte-after-slash" else
             match scanRegex r with
             | some (b, r') => lexLoop fuel true r' (.regex (String.ofList ('/' :: b)) :: acc)
             | none => .err
           | [] => .err
-        else if c = '[' || c = ']' || c = '|' || c = '@' then .na "statement-token"
+        else if c = '[' then lexLoop fuel false r (.sym .lsb :: acc)
+        else if c = ']' then lexLoop fuel false r (.sym .rsb :: acc)
+        else if c = '|' then lexLoop fuel false r (.sym .pipe :: acc)
+        else if c = '@' then lexLoop fuel false r (.sym .at :: acc)
         else if !isAscii c then .na "non-ascii"
         else .err
 
@@ -416,7 +461,7 @@ def decode : RTok → Res Tok
   | .star => .ok (.lit .star)
   | .not => .ok .not
   | .op o => .ok (.op o)
-  | .other _ => .na "statement-token"
+  | .sym x => .ok (.sym x)
 
 def decodeAll : List RTok → Res (List Tok)
   | [] => .ok []
